@@ -18,7 +18,7 @@ EXPLANATION = (
     "threshold); votes whose expiry is not after `now` are skipped before they are counted; a minimum below 2 is rejected by "
     "IpVote::new and ConfigBuilder::enr_peer_update_min, and the service builds IpVote from config.enr_peer_update_min. R4: "
     "every successful update is announced with Event::SocketUpdated(the address just set).")
-NOT_DECIDED = ["the max / second-max bookkeeping and the literal 1.0 of the margin arithmetic (value-level; the crate's quickcheck properties sample it)",
+NOT_DECIDED = ["the max / second-max bookkeeping of the vote count (value-level; the crate's quickcheck properties sample it)",
                "sequence-number increase and signature validity are the enr crate's contract for set_udp_socket (trusted)"]
 TRUSTED = ["enr::Enr::set_udp_socket bumps seq and re-signs", "HashMap keyed by NodeId keeps one entry per key"]
 
@@ -229,7 +229,8 @@ def r3(ctx):
         e = canon(p.local(th[0]))
         shown = fmt_short(e)[:160]
         muls = [x for x in walk(e) if x[0] == "bin" and x[1] == "Mul"]
-        subs = [x for x in walk(e) if x[0] == "bin" and x[1] == "Sub" and x[3][0] == "const" and str(x[3][1]).startswith("crate::service::ip_vote::CLEAR_MAJORITY_PERCENTAGE")]
+        subs = [x for x in walk(e) if x[0] == "bin" and x[1] == "Sub" and x[3][0] == "const" and str(x[3][1]).startswith("crate::service::ip_vote::CLEAR_MAJORITY_PERCENTAGE") and
+                x[2] == ("const", "f:1.0")]
         rounds = [x for x in walk(e) if x[0] == "call" and re.search(r"f64(::<impl f64>)?::round$", x[1])]
         okm = bool(muls) and bool(subs) and bool(rounds) and any(subs[0] in walk(m) for m in muls)
     rule.check(okm, "threshold = round(max_count * (1 - CLEAR_MAJORITY_PERCENTAGE))", "margin|shape", "the rival threshold is computed as %s" % shown, loc=b.loc(b.line))
